@@ -167,6 +167,61 @@ func c12Budget(c *rt.C) {
 		return
 	}
 	total := ref.written
+	// terminator-flush lane (non-delta: the shard contents repeat exactly). The buffer size is chosen
+	// so that one shard's records fit the writer's buffer with 0, 1 or 3 bytes to spare: the first
+	// write(2) to that file is then the flush forced by the 4-byte terminator inside Close, and it fails.
+	if !delta {
+		var victimName string
+		var size int64
+		for i := 0; ; i++ {
+			st, serr := os.Stat(filepath.Join(dir0, "data", fmt.Sprintf("shard-%d", i)))
+			if serr != nil {
+				break
+			}
+			if st.Size() > size {
+				size, victimName = st.Size(), fmt.Sprintf("shard-%d", i)
+			}
+		}
+		for _, spare := range []int{0, 1, 3} {
+			if size < 8 {
+				break
+			}
+			nitro.DiskBlockSize = int(size) - 4 + spare
+			dir := filepath.Join(c.Tmp, fmt.Sprintf("t%d", spare))
+			victim := filepath.Join(dir, "data", victimName)
+			var fmu sync.Mutex
+			failed, firstLen := 0, 0
+			nitro.VerifSetFileWrite(func(fd *os.File, path string, p []byte) (int, error) {
+				if path == victim {
+					fmu.Lock()
+					if failed == 0 {
+						firstLen = len(p)
+					}
+					failed++
+					fmu.Unlock()
+					return 0, syscall.ENOSPC
+				}
+				return fd.Write(p)
+			})
+			err := d.store(r, dir, conc)
+			nitro.VerifSetFileWrite(nil)
+			c.Evals(1)
+			outcome := "error-returned"
+			if failed == 0 {
+				outcome = "not-reached"
+			} else if err == nil {
+				oc, detail := d.tryLoadDir(dir, 2)
+				outcome = "success+" + oc
+				if oc != "exact" {
+					c.Violate("silent-partial-backup/terminator-flush/"+oc, fmt.Sprintf("every write to data/%s failed (the first one, %d bytes, was the flush forced by the terminator inside Close: buffer of %d bytes, %d bytes of records) but StoreToDisk returned nil; loading the directory gives: %s %s", victimName, firstLen, nitro.DiskBlockSize, size-4, oc, detail),
+						map[string]interface{}{"failed_file": "data/" + victimName, "disk_block_size": nitro.DiskBlockSize, "shard_bytes": size, "stored_items": len(d.target.Want), "mem": mem})
+				}
+			}
+			c.Sig("terminator-flush/spare=%d/%s", spare, outcome)
+			os.RemoveAll(dir)
+		}
+		nitro.DiskBlockSize = block
+	}
 	// budgets: every flush boundary +-1 for small totals, stratified otherwise, always incl. 0, total-1, last flush
 	var budgets []int64
 	seen := map[int64]bool{}
@@ -574,7 +629,7 @@ func init() {
 	rt.Register(&rt.Prop{
 		ID: "C12", Level: "fault_enumeration",
 		Technique: "fault injection with runtime monitoring: (a) write failures through the shard-file write interposer (byte budgets; disk-full manifests) and hook-free through RLIMIT_FSIZE, with an injected-fault ledger; (b) crash images captured under one mutex before every file-system mutation of StoreToDisk and each fed to LoadFromDisk",
-		Rule: "case index mod 5: 0,1 = byte budgets: a reference run measures the bytes written to shard files, then budgets {0, total-1, total-4, total-5, every DiskBlockSize boundary and boundary-1 sampled, random} make every later write fail with a short write + ENOSPC (every third run the manifests cannot be written either), plus runs in which exactly one manifest file (nitro.json, files.json, checksums.json and their delta counterparts) cannot be written while every shard write succeeds, and runs in which the close(2) of one shard file fails after its data was lost; if a failure was consumed and StoreToDisk returns nil the directory must load to exactly the stored snapshot. 2 = the same through RLIMIT_FSIZE (real write(2) failing with EFBIG, no hooks). 3,4 = crash images: the directory is copied before every shard write, before/after every manifest write, before the final flush, before and after the close of every shard file and when the body of StoreToDisk has finished, plus derived images with an empty manifest; every image must load with an error or exactly the stored snapshot. Databases 0-3000 items, DiskBlockSize 64..64Ki, concurrency 1-8, delta on/off (with churn so delta shards are written), Go/poison memory. " +
+		Rule: "case index mod 5: 0,1 = byte budgets: a reference run measures the bytes written to shard files, then budgets {0, total-1, total-4, total-5, every DiskBlockSize boundary and boundary-1 sampled, random} make every later write fail with a short write + ENOSPC (every third run the manifests cannot be written either), plus runs in which exactly one manifest file (nitro.json, files.json, checksums.json and their delta counterparts) cannot be written while every shard write succeeds, and runs in which the close(2) of one shard file fails after its data was lost, and (non-delta) runs whose buffer size makes the first write to one shard the flush forced by the terminator inside Close, which fails; if a failure was consumed and StoreToDisk returns nil the directory must load to exactly the stored snapshot. 2 = the same through RLIMIT_FSIZE (real write(2) failing with EFBIG, no hooks). 3,4 = crash images: the directory is copied before every shard write, before/after every manifest write, before the final flush, before and after the close of every shard file and when the body of StoreToDisk has finished, plus derived images with an empty manifest; every image must load with an error or exactly the stored snapshot. Databases 0-3000 items, DiskBlockSize 64..64Ki, concurrency 1-8, delta on/off (with churn so delta shards are written), Go/poison memory. " +
 			"evaluations = faulted backups + images loaded; distinct = (fault class, outcome, delta, block size) tuples",
 		Assumptions: []string{"process death, not power loss: bytes handed to write(2) survive, bytes still in the bufio buffer do not", "the image 'manifest exists but is empty' is derived (ioutil.WriteFile opens with O_TRUNC and writes inside the standard library)", "backups go into an empty directory, as the property states"},
 		Cases: func(t string) int {
